@@ -246,8 +246,15 @@ def expect_constant(decl, fmt, value):
 _DT_TOKENS = ["YYYY", "DD", "MM", "YY", "hh", "mm", "ss"]
 
 
+EXCEL_MIDNIGHT = " 00:00:00"  # what a date-only Excel cell renders with; the documented rule for such cells ends with it
+
+
 def parse_layout(rule):
     """[(kind, text)] with kind 'tok' or 'lit'; None when outside the judged grammar."""
+    if rule.endswith(EXCEL_MIDNIGHT) and not any(t in rule[: -len(EXCEL_MIDNIGHT)] for t in ("hh", "mm", "ss")):
+        # the documented layout for Excel dates: a date layout followed by the literal text " 00:00:00"
+        head = parse_layout(rule[: -len(EXCEL_MIDNIGHT)])
+        return None if head is None else head + [("lit", c) for c in EXCEL_MIDNIGHT]
     out = []
     i, n = 0, len(rule)
     seen = set()
@@ -278,8 +285,8 @@ def expect_datetime(decl, fmt, value):
         return (UNJUDGED, "DateTime layout outside the judged grammar")
     kinds = [t for k, t in layout if k == "tok"]
     has_time = any(t in kinds for t in ("hh", "mm", "ss"))
-    if fmt["kind"] == "excel" and not has_time and value.endswith(" 00:00:00"):
-        value = value[: -len(" 00:00:00")]
+    if fmt["kind"] == "excel" and not has_time and value.endswith(EXCEL_MIDNIGHT) and not (decl.get("rule") or "").endswith(EXCEL_MIDNIGHT):
+        value = value[: -len(EXCEL_MIDNIGHT)]
     # strict parse
     pos = 0
     got = {}
@@ -308,6 +315,12 @@ def expect_datetime(decl, fmt, value):
         strict = False
     if not strict:
         literals = set(t.lower() for k, t in layout if k == "lit")
+        if (decl.get("rule") or "").endswith(EXCEL_MIDNIGHT) and not has_time:
+            # the literal digits of the midnight suffix have to be there as written; only the date part is looked at then
+            if not value.endswith(EXCEL_MIDNIGHT.strip()):
+                return (REJECT, "midnight suffix of the layout missing")
+            value = value[: -len(EXCEL_MIDNIGHT.strip())]
+            literals.discard("0")
         digits = sum(1 for c in value if c in "0123456789")
         min_digits = len(kinds)
         max_digits = sum(4 if t == "YYYY" else 2 for t in kinds)
